@@ -3,6 +3,15 @@
 //! at every yield point (cancellation poll, `tick`, `yield`, task boundary) and the scheduler
 //! decides who runs next.  The recorded trace of (worker, label) grants is the schedule;
 //! because no two workers ever run concurrently it replays exactly.
+//!
+//! Seam S8 (simulated futex): Rust's `Mutex`, `RwLock`, `Condvar`, `Once` and thread parking
+//! block through `syscall(SYS_futex, ..)`.  The harness binary defines `syscall` (entropy.rs)
+//! and hands the futex calls of scheduled workers to `futex_hook` below: a worker that would
+//! block in the kernel (the lock is held by a parked worker — the library kept a lock across
+//! a yield point) is parked by the scheduler instead, and the release of a contended lock is a
+//! scheduling point.  Contended locks inside the library are therefore part of the seeded
+//! schedule and replay exactly.  Anything the simulation cannot serve (all workers waiting,
+//! a blocking primitive that is not futex based) falls back to the real-time watchdog.
 
 use std::sync::Condvar;
 use std::sync::Mutex;
@@ -55,6 +64,49 @@ impl Strategy {
     }
 }
 
+thread_local! {
+    /// the scheduler and worker index of the current thread, while it is a scheduled worker
+    static CUR: std::cell::Cell<(*const Sched, usize)> = const { std::cell::Cell::new((std::ptr::null(), 0)) };
+    /// > 0 while the thread is inside the scheduler itself (its own lock and condvar are real)
+    static IN_SCHED: std::cell::Cell<u32> = const { std::cell::Cell::new(0) };
+}
+
+struct Inside;
+impl Inside {
+    fn enter() -> Inside {
+        IN_SCHED.with(|c| c.set(c.get() + 1));
+        Inside
+    }
+}
+impl Drop for Inside {
+    fn drop(&mut self) {
+        IN_SCHED.with(|c| c.set(c.get() - 1));
+    }
+}
+
+const FUTEX_WAIT: i32 = 0;
+const FUTEX_WAKE: i32 = 1;
+const FUTEX_WAIT_BITSET: i32 = 9;
+const FUTEX_WAKE_BITSET: i32 = 10;
+const FUTEX_CMD_MASK: i32 = !(128 | 256);
+
+/// Called by the interposed `syscall` for SYS_futex.  `None`: not ours, do the real call.
+/// `Some(r)`: the result in kernel convention (negative errno on failure).
+pub fn futex_hook(addr: usize, op: i32, val: u32, timeout: usize) -> Option<i64> {
+    let (sp, me) = CUR.try_with(|c| c.get()).ok()?;
+    if sp.is_null() || IN_SCHED.try_with(|c| c.get()).unwrap_or(1) > 0 {
+        return None;
+    }
+    // SAFETY: CUR is set by `start` and cleared by `finish`, which the worker calls before the
+    // scheduler goes out of scope
+    let sched = unsafe { &*sp };
+    match op & FUTEX_CMD_MASK {
+        FUTEX_WAIT | FUTEX_WAIT_BITSET => sched.futex_wait(me, addr, val, timeout != 0),
+        FUTEX_WAKE | FUTEX_WAKE_BITSET => sched.futex_wake(me, addr, val),
+        _ => None,
+    }
+}
+
 const NOBODY: usize = usize::MAX;
 /// Real time after which a worker that was handed the processor without reaching any yield
 /// point is taken to be blocked (on a lock that a parked worker holds).
@@ -67,6 +119,13 @@ struct State {
     /// workers that were handed the processor but turned out to be blocked; they become
     /// runnable again when they arrive at their next yield point
     blocked: Vec<bool>,
+    /// simulated futex: the address a worker waits on, whether it has been woken, and whether
+    /// the wait has a timeout (then the scheduler may also let it time out)
+    waiting: Vec<Option<usize>>,
+    woken: Vec<bool>,
+    timed: Vec<bool>,
+    futex_waits: u64,
+    futex_wakes: u64,
     /// incremented whenever any worker arrives at a yield point or finishes
     progress: u64,
     stalls: u64,
@@ -114,6 +173,11 @@ impl Sched {
             st: Mutex::new(State {
                 current: first,
                 blocked: vec![false; n],
+                waiting: vec![None; n],
+                woken: vec![false; n],
+                timed: vec![false; n],
+                futex_waits: 0,
+                futex_wakes: 0,
                 progress: 0,
                 stalls: 0,
                 free_run: false,
@@ -139,6 +203,7 @@ impl Sched {
     fn pick_next(s: &mut State, n: usize, me: usize, me_runnable: bool) -> Option<usize> {
         let runnable: Vec<usize> = (0..n)
             .filter(|i| !s.finished[*i] && !s.blocked[*i] && (*i != me || me_runnable))
+            .filter(|i| s.waiting[*i].is_none() || s.woken[*i] || s.timed[*i])
             .collect();
         if runnable.is_empty() {
             return None;
@@ -229,12 +294,15 @@ impl Sched {
 
     /// Blocks until worker `me` is scheduled for the first time.
     pub fn start(&self, me: usize) {
+        let _in = Inside::enter();
+        CUR.with(|c| c.set((self as *const Sched, me)));
         let s = self.st.lock().unwrap();
         let _s = self.wait_for_turn(s, me);
     }
 
     /// A yield point reached by worker `me`.
     pub fn yield_point(&self, me: usize, label: &str) {
+        let _in = Inside::enter();
         let mut s = self.st.lock().unwrap();
         s.progress += 1;
         if s.free_run {
@@ -277,6 +345,8 @@ impl Sched {
 
     /// Worker `me` has finished all its tasks.
     pub fn finish(&self, me: usize) {
+        let _in = Inside::enter();
+        CUR.with(|c| c.set((std::ptr::null(), 0)));
         let mut s = self.st.lock().unwrap();
         s.finished[me] = true;
         s.blocked[me] = false;
@@ -290,10 +360,117 @@ impl Sched {
     /// (trace hash, yield points, context switches, labels at which a switch happened)
     /// Number of times a worker was found blocked (see STALL_MS).
     pub fn stalls(&self) -> u64 {
+        let _in = Inside::enter();
         self.st.lock().unwrap().stalls
     }
 
+    /// (simulated futex waits, simulated wake-ups delivered)
+    pub fn futex_stats(&self) -> (u64, u64) {
+        let _in = Inside::enter();
+        let s = self.st.lock().unwrap();
+        (s.futex_waits, s.futex_wakes)
+    }
+
+    /// FUTEX_WAIT by worker `me`, which has the processor.
+    fn futex_wait(&self, me: usize, addr: usize, val: u32, timed: bool) -> Option<i64> {
+        let _in = Inside::enter();
+        let mut s = self.st.lock().unwrap();
+        if s.free_run || s.current != me {
+            return None;
+        }
+        // SAFETY: the kernel would read the same word
+        let cur = unsafe { (*(addr as *const std::sync::atomic::AtomicU32)).load(std::sync::atomic::Ordering::SeqCst) };
+        if cur != val {
+            return Some(-(libc::EAGAIN as i64));
+        }
+        s.progress += 1;
+        s.futex_waits += 1;
+        s.step += 1;
+        s.trace_len += 1;
+        s.trace_hash = crate::rng::mix(s.trace_hash, crate::rng::mix(me as u64, crate::rng::hash_str("futex-wait")));
+        s.waiting[me] = Some(addr);
+        s.woken[me] = false;
+        s.timed[me] = timed;
+        match Self::pick_next(&mut s, self.n, me, timed) {
+            None => {
+                // every unfinished worker waits for a wake-up that no scheduled worker can
+                // deliver: the simulation cannot serve this, real waits and the clock take over
+                s.waiting[me] = None;
+                s.stalls += 1;
+                s.free_run = true;
+                self.cv.notify_all();
+                return None;
+            }
+            Some(next) if next == me => {
+                s.waiting[me] = None;
+                return Some(-(libc::ETIMEDOUT as i64));
+            }
+            Some(next) => {
+                s.switches += 1;
+                if s.switched_in_label.len() < 64 {
+                    let st = s.step;
+                    s.switched_in_label.push(("futex-wait".to_string(), st));
+                }
+                s.current = next;
+                self.cv.notify_all();
+                s = self.wait_for_turn(s, me);
+            }
+        }
+        let woken = s.woken[me];
+        s.waiting[me] = None;
+        s.woken[me] = false;
+        if !woken && timed && !s.free_run {
+            return Some(-(libc::ETIMEDOUT as i64));
+        }
+        // woken, or a spurious wake-up (the caller re-checks its condition)
+        Some(0)
+    }
+
+    /// FUTEX_WAKE by worker `me`: wakes up to `n` simulated waiters (seeded choice).  Waking a
+    /// simulated waiter is a scheduling point.  Real waiters (threads that are not scheduled
+    /// workers) are woken by the real call.
+    fn futex_wake(&self, me: usize, addr: usize, n: u32) -> Option<i64> {
+        let woken = {
+            let _in = Inside::enter();
+            let mut s = self.st.lock().unwrap();
+            if s.free_run {
+                return None;
+            }
+            let mut waiters: Vec<usize> = (0..self.n).filter(|i| s.waiting[*i] == Some(addr) && !s.woken[*i]).collect();
+            if waiters.is_empty() {
+                return None;
+            }
+            let mut cnt = 0u32;
+            while cnt < n && !waiters.is_empty() {
+                let k = s.rng.below(waiters.len());
+                let w = waiters.remove(k);
+                s.woken[w] = true;
+                cnt += 1;
+            }
+            s.futex_wakes += cnt as u64;
+            cnt
+        };
+        let mut total = woken as i64;
+        if woken < n {
+            let r = unsafe { crate::entropy::raw_syscall6(libc::SYS_futex, addr, (FUTEX_WAKE | 128) as usize, (n - woken) as usize, 0, 0, 0) };
+            if r > 0 {
+                total += r as i64;
+            }
+        }
+        if self.st_current_is(me) {
+            self.yield_point(me, "futex-wake");
+        }
+        Some(total)
+    }
+
+    fn st_current_is(&self, me: usize) -> bool {
+        let _in = Inside::enter();
+        let s = self.st.lock().unwrap();
+        s.current == me && !s.free_run
+    }
+
     pub fn summary(&self) -> (u64, u64, u64, Vec<(String, u64)>, bool) {
+        let _in = Inside::enter();
         let s = self.st.lock().unwrap();
         (
             s.trace_hash,
